@@ -97,6 +97,19 @@ Theorem C04_bytes_to_screen : forall (bytes : item -> list Z) h scr f,
 Proof. exact bytes_to_screen. Qed.
 Print Assumptions C04_bytes_to_screen.
 
+(* "cursor up 0" would not be "stay where you are": a terminal executes a zero parameter as one line up, and with ESC [ J behind it
+   the line above the cursor — a persisted line, when no live row is on the screen — is erased *)
+Theorem C04_cursor_up_zero_erases_a_persisted_line : forall h above l, 2 <= h ->
+  exists toks, lex (LGround []) (encode_item (VCuu 0)) = Some (LGround [], toks) /\
+               fold_left (tok_step h) toks (above ++ [l], []) = (above, []).
+Proof. exact cuu_zero_erases_a_line. Qed.
+Print Assumptions C04_cursor_up_zero_erases_a_persisted_line.
+
+(* which is why a frame that leaves no live row behind is followed by no cursor control at all *)
+Theorem C04_no_cursor_up_without_live_rows : forall k, k <= 0 -> cuu_items k = [].
+Proof. exact no_cursor_up_without_live_rows. Qed.
+Print Assumptions C04_no_cursor_up_without_live_rows.
+
 Example C04_nonvacuous :
   exists s, run (init_cst false true false)
     [CT_OP; CT_ADD 0 0 0 5 None None false false true 0 false; HM_PUSH 0 true 0 false 0;
